@@ -53,6 +53,16 @@ def fB(x):
     return G.ctx.apply('F', [zarg(x)])
 
 
+def fAd(x, y=1.2345):
+    G.evals['A'].append(x)
+    return G.ctx.apply('F', [zarg(x)])
+
+
+def fBd(x, y=1.2345):
+    G.evals['B'].append(x)
+    return G.ctx.apply('F', [zarg(x)])
+
+
 ERRORS = (UserError, TypeError, KeyError, AttributeError)     # what the wrapped function may raise (the caches' own control flow uses KeyError/TypeError)
 
 
@@ -193,8 +203,12 @@ class Twin:
         cfg = self.cfg
         algo = cfg['algo']
         maxsize = ctx.int('maxsize', lo=1) if algo in BOUNDED else None
-        gA = self.decorate(fA, maxsize)
-        gB = self.decorate(fB, maxsize)
+        if sc == 'builtin':
+            return self.fn_builtin(ctx, maxsize)
+        if sc == 'hostile-history':
+            return self.fn_hostile_history(ctx, maxsize)
+        gA = self.decorate(fAd if cfg.get('fdefault') else fA, maxsize)
+        gB = self.decorate(fBd if cfg.get('fdefault') else fB, maxsize)
         N = cfg['N']
         P = {'raise': 'C16', 'probe': 'C18', 'pickle': 'C20'}[sc]
         atoms = []
@@ -278,7 +292,7 @@ class Twin:
             ctx.check((len(G.evals['A']) - nA) == (len(G.evals['B']) - nB), lab, {'kind': 'one twin evaluated, the other did not'})
             self.compare(ctx, gA, gB, lab, {})
             if sc == 'probe':
-                ctx.check(gA.__wrapped__ is fA, 'C18:wrapped', {'kind': '__wrapped__ is not the original function'})
+                ctx.check(gA.__wrapped__ is (fAd if cfg.get('fdefault') else fA), 'C18:wrapped', {'kind': '__wrapped__ is not the original function'})
                 k = gA.key(x)
                 m = gA.__cache__()
                 after = self.observe(gA)
@@ -333,6 +347,56 @@ class Twin:
                 # the clone calls the same module-level function fA; evaluation logs keep working
 
 
+    def fn_builtin(self, ctx, maxsize):
+        """the memoized callable is C-implemented without an introspectable signature: key()/lookup() still never run it"""
+        import collections
+        dq = collections.deque()
+        g = self.decorate(dq.append, maxsize)
+        x0, x1 = ctx.atom(ArgSort, 'x'), ctx.atom(ArgSort, 'x')
+        try:
+            g(x0)
+        except (PathPruned, Inconclusive):
+            raise
+        except Exception as e:
+            ctx.check(False, 'C18:no-exception', {'kind': 'call raised %s' % type(e).__name__})
+            return
+        n = len(dq)
+        for px in (x1, x0):
+            try:
+                g.key(px)
+                try:
+                    g.lookup(px)
+                except KeyError:
+                    pass
+            except (PathPruned, Inconclusive):
+                raise
+            except Exception as e:
+                ctx.check(False, 'C18:no-exception', {'kind': 'probe raised %s' % type(e).__name__})
+                return
+            ok = len(dq) == n
+            ctx.check(ok, 'C18:no-eval', {'kind': 'probe evaluated the function'})
+
+    def fn_hostile_history(self, ctx, maxsize):
+        """safe decorators: calls with unhashable arguments inside ordinary histories never make any call fail"""
+        cfg = self.cfg
+        g = self.decorate(fH2, maxsize)
+        for i in range(cfg['N']):
+            hostile = ctx.bool('hostile')
+            x = [1, 2] if hostile else ctx.atom(ArgSort, 'x')
+            size_b = len(g.__cache__())
+            try:
+                r = g(x)
+            except (PathPruned, Inconclusive):
+                raise
+            except Exception as e:
+                ctx.check(False, 'C16:safe-never-fails', {'kind': 'safe cache raised %s in a history with unhashable arguments' % type(e).__name__})
+                return
+            want = ctx.apply('FH', [99]) if hostile else ctx.apply('F', [x])
+            ctx.check(r == want, 'C16:safe-result', {'kind': 'wrong result in a history with unhashable arguments'})
+            size_a = len(g.__cache__())
+            if maxsize is not None:
+                ctx.check(Or(size_a <= maxsize, size_a <= size_b), 'C16:safe-bound', {'kind': 'cache grew past its bound in a history with unhashable arguments'})
+
     def fn_hostile(self, ctx):
         """safe decorators never fail on arguments the keymap cannot hash/encode"""
         cfg = self.cfg
@@ -362,6 +426,11 @@ def fH(x):
     return G.ctx.apply('FH', [G.hostile_w])
 
 
+def fH2(x):
+    G.evals['A'].append(x)
+    return G.ctx.apply('FH', [99]) if isinstance(x, list) else G.ctx.apply('F', [x])
+
+
 def build(cfg):
     return Twin(cfg)
 
@@ -380,6 +449,8 @@ def plan(prop, tier):
             kw['name'] += '/ignore=%s' % ','.join(map(str, kw['ignore']))
         if kw.get('pause'):
             kw['name'] += '/paused'
+        if kw.get('fdefault'):
+            kw['name'] += '/float-default'
         if kw.get('pickle_after'):
             kw['name'] += '/after%d' % kw['pickle_after']
         if kw.get('canary'):
@@ -398,6 +469,10 @@ def plan(prop, tier):
             for km in ('default', 'raw', 'str', 'pickle', 'md5', 'pyhash', 'strflat', 'rawnf'):
                 for b in ('none', 'cached_dict'):
                     add(scenario='hostile', module='safe', algo=a, backend=b, keymap=km)
+        for a in ALGOS:
+            for km in ('raw', 'default'):
+                for b in ('none', 'cached_dict'):
+                    add(scenario='hostile-history', module='safe', algo=a, backend=b, keymap=km, N=3 if q else 4)
         add(scenario='raise', module='std', algo='lru', backend='none', N=3, canary=True)
     elif prop == 'C18':
         N = 3 if q else 4
@@ -409,6 +484,9 @@ def plan(prop, tier):
                 add(scenario='probe', module=m, algo=a, backend='none', keymap='raw', N=3, ignore=[0] if False else None, tol=2)
                 for deep in (False, True):
                     add(scenario='probe', module=m, algo=a, backend='cached_dict' if a == 'no' else 'none', keymap='raw', N=2 if q else 3, tol=2, deep=deep, args='round')
+                # a float default with more digits than the tolerance, left to its default by the caller
+                add(scenario='probe', module=m, algo=a, backend='cached_dict' if a == 'no' else 'none', keymap='raw', N=2, tol=2, fdefault=True)
+                add(scenario='builtin', module=m, algo=a, backend='none', keymap='raw', N=1)
         add(scenario='probe', module='std', algo='lru', backend='none', N=2, canary=True)
     elif prop == 'C20':
         for m in ('std', 'safe'):
